@@ -212,6 +212,8 @@ where
                 source: e,
             })?;
 
+        #[cfg(feature = "verif")]
+        crate::verif::point("open.flock");
         lockfile.try_lock().map_err(|_e| LibError::AlreadyOpened)?;
 
         // Load or create settings
